@@ -212,6 +212,8 @@ def run(ctx, rep, kinds=KINDS):
         spec = gen_overlap(ctx.rng) if stream == 'overlap' else gen_spec(ctx.rng, stream)
         if stream in ('tree', 'overlap') and ctx.rng.random() < .2:
             spec = add_orphans(ctx.rng, spec)
+        if ctx.rng.random() < .3:
+            spec['choices_first'] = True     # selection choices declared before the derivation edges
         if not ctx.mine(i):
             continue
         check_graph(ctx, rep, spec, stream, kinds)
